@@ -89,7 +89,24 @@ Definition e2e_mapping_ok (prm : mparams) (n : N) (m : N * list N * list N) : bo
                                    (e2e_chunks prm len))
               present).
 
-Definition C19e_case (prm : mparams) (n : N) (maps : list (N * list N * list N)) : bool * bool * N :=
-  (forallb (fun m => fst (e2e_mapping_ok prm n m)) maps,
-   forallb (fun m => snd (e2e_mapping_ok prm n m)) maps,
-   0).
+(* Recorded finding C19-shared-tail-beyond-eof (class 1): `tail` lists the needles the process wrote, through a
+   shared mapping of a file, at offsets not wholly inside the file (the last page of the mapping extends beyond
+   the end of the file).  The model follows the code: such pages are read from the file and the bytes beyond
+   its end are taken as zeros, so these needles are not in what the scan reads; the property demands them. *)
+Definition remove_all (t l : list N) : list N := filter (fun a => negb (existsb (N.eqb a) t)) l.
+
+Definition e2e_mapping_class (prm : mparams) (n : N) (m : N * list N * list N * list N) : bool * bool * N :=
+  let '(len, present, found, tail) := m in
+  let corr := fst (e2e_mapping_ok prm n (len, remove_all tail present, found)) in
+  let spec := snd (e2e_mapping_ok prm n (len, present, found)) in
+  (corr, spec,
+   if spec then 0
+   else match tail with [] => 0 | _ => if snd (e2e_mapping_ok prm n (len, remove_all tail present, found)) then 1 else 0 end).
+
+Definition C19e_case (prm : mparams) (n : N) (maps : list (N * list N * list N * list N)) : bool * bool * N :=
+  let rs := map (e2e_mapping_class prm n) maps in
+  (forallb (fun r => fst (fst r)) rs,
+   forallb (fun r => snd (fst r)) rs,
+   (* every mapping that fails the property must be explained for the case to be in the class *)
+   if forallb (fun r => snd (fst r) || (snd r =? 1)) rs
+   then (if forallb (fun r => snd (fst r)) rs then 0 else 1) else 0).
